@@ -501,8 +501,9 @@ func evalStack(sstack []any) []any {
 						sstack[i] = ok && float64(tl) != tr
 					}
 				case float64:
-					tr, ok := right.(int64)
-					sstack[i] = ok && tl != float64(tr)
+					if tr, ok := right.(int64); ok {
+						sstack[i] = tl != float64(tr)
+					}
 				}
 			}
 		case lt.code:
